@@ -206,7 +206,7 @@ PROPS = {
              "update_time_signed, clear_rrs, into_template/try_from_template(_as_tsig_subsequent) into smaller/larger buffers); "
              "12 pool names with shared suffixes and case variants plus ~190-octet names; 14 class/type pairs (all name-bearing "
              "RFC 1035 types, SRV, CH A, TXT, A, unknown); 1/25 RDATA damaged; buffers 12..70000, initial limits below the "
-             "buffer size. distinct = (section sizes, EDNS, TSIG mode, pointer count, final compression mode) classes",
+             "buffer size. distinct = (section sizes, EDNS, TSIG mode, pointer count, final compression mode) classes; after every header operation the Writer's getters (id, qr, opcode, aa, tc, rd, ra, rcode, qdcount, ancount, nscount) are compared with the model",
         assumptions=COMMON_ASSUMPTIONS + [
             "the exact size limit after set_limit() below the current size depends on the compressed cursor; the monitor "
             "uses sound lower/upper bounds (uncompressed size of what was accepted)",
@@ -450,7 +450,7 @@ PROPS = {
              "checked against validate(); a hand-encoded message with 1-4 records (compressed names) read with "
              "Rdata::read at the true span, neighbouring lengths/cursors, as a different type, at/after the end of the "
              "message, random (cursor,RDLENGTH) and after damaging one octet; and 1-5 valid records written by the Writer "
-             "in a random compression mode and read back. distinct = (operation, class, type, verdict) classes",
+             "in a random compression mode and read back. distinct = (operation, class, type, verdict) classes; valid RDATA is also validated and read under other classes (IN, CH, HS, NONE, ANY, 0, 65280) than the one it was shaped for",
         assumptions=COMMON_ASSUMPTIONS + ["under standard (case-insensitive) compression, read-back names are compared ignoring ASCII case"],
         quick=plans(dict(build="dbg", nshards=16), dict(build="miri", nshards=4, timeout=900)),
         thorough=plans(dict(build="dbg", nshards=16), dict(build="rel", nshards=16),
@@ -464,7 +464,7 @@ PROPS = {
              "other classes, nameless and unknown types) and a pool of 3-9 RDATA built from 5 names with case flips, "
              "trailing junk, truncations and single-octet mutations; all ordered pairs (meaning, reflexivity, symmetry), "
              "all triples (transitivity), and a shuffled insertion sequence into RdataSetOwned via insert and from_iter. "
-             "distinct = (class, type, well-formedness of both sides, expected verdict) and set-shape classes",
+             "distinct = (class, type, well-formedness of both sides, expected verdict) and set-shape classes; a third of the pools are judged under another class (IN, CH, HS, NONE, ANY, 0, 65280) or another type than the one they were shaped for",
         assumptions=COMMON_ASSUMPTIONS,
         quick=plans(dict(build="dbg", nshards=16), dict(build="miri", nshards=4, timeout=900)),
         thorough=plans(dict(build="dbg", nshards=16), dict(build="rel", nshards=16),
